@@ -1,5 +1,6 @@
 """C08 — Segmentation and aggregation follow the protocol rules (structural clauses)."""
 from cmpverif import accessors
+from cmpverif.build import Broken
 from cmpverif.report import Result
 from rules import encoder_rules as E
 
@@ -29,6 +30,18 @@ def run(ctx):
         if o.cls == "ASAM::CMP::MessageHeader" and "SegmentType" in o.key:
             res.check(o.ok, "C08-R2", o.key, o.loc, o.detail)
     accessors.require_supported(ast)
+    # the type a frame announces is the packet's: read through Packet::getMessageType() -> PayloadType::getMessageType(), written through
+    # CmpHeader::setMessageType(); both hand every value through unchanged (a range check that maps `vendor` to `undefined` makes vendor frames
+    # announce 0 — and, first in a batch, skips the frame opening altogether)
+    obs2, ast2 = accessors.analyse(fb, ctx.spec("layout.json"), scope=lambda cls, stem: stem == "MessageType" and cls in ("ASAM::CMP::PayloadType", "ASAM::CMP::CmpHeader"))
+    k2 = 0
+    for o in obs2:
+        if o.cls in ("ASAM::CMP::PayloadType", "ASAM::CMP::CmpHeader") and "MessageType" in o.key and o.tag in ("position", "readback", "frame"):
+            res.check(o.ok, "C08-R3", "type-accessor:" + o.key.replace("ASAM::CMP::", ""), o.loc, o.detail)
+            k2 += 1
+    accessors.require_supported(ast2)
+    if k2 < 6:
+        raise Broken("C08-R3: message-type accessor obligations not found (%d)" % k2)
     E.rule_type_change_rebuilds_template(res, "C08-R3", m)
     E.rule_type_change_opens_frame(res, "C08-R3", m)
     n4 = E.rule_fit_decided_on_fresh_frame(res, "C08-R4", m, placement=True)
